@@ -100,8 +100,14 @@ static int _try_compressed_write_to_network(xmpp_conn_t *conn, int force)
         ret = conn_interface_write(&comp->next, comp->compression.buffer, len);
         if (ret < 0)
             return ret;
-        comp->compression.stream.next_out = comp->compression.buffer;
-        comp->compression.stream.avail_out = STROPHE_COMPRESSION_BUFFER_SIZE;
+        /* keep what the transport did not accept at the front of the buffer */
+        if (ret < len)
+            memmove(comp->compression.buffer,
+                    (Bytef *)comp->compression.buffer + ret, len - ret);
+        comp->compression.stream.next_out =
+            (Bytef *)comp->compression.buffer + (len - ret);
+        comp->compression.stream.avail_out =
+            STROPHE_COMPRESSION_BUFFER_SIZE - (len - ret);
     }
     return ret;
 }
